@@ -591,6 +591,18 @@ func (re *Regexp) GroupNameFromNumber(i int) string {
 	return ""
 }
 
+// groupNameFromSlot retrieves the name of the group stored at index i of Match.Groups().
+// With sparse group numbers the slot index differs from the group number.
+func (re *Regexp) groupNameFromSlot(i int) string {
+	if re.capslist == nil {
+		return strconv.Itoa(i)
+	}
+	if i >= 0 && i < len(re.capslist) {
+		return re.capslist[i]
+	}
+	return ""
+}
+
 // GroupNumberFromName returns a group number that corresponds to a group name.
 // Returns -1 if the name is not a recognized group name. Numbered groups
 // automatically get a group name that is the decimal string equivalent of its
